@@ -51,4 +51,5 @@ props! {
     "C17" => c17,
     "C18" => c18,
     "C19" => c19,
+    "C20" => c20,
 }
